@@ -519,9 +519,9 @@ class ServiceDiscoveryProtocol(SOMEIPDatagramProtocol):
 
         for entry in sdhdr.entries:
             if entry.sd_type == someip.header.SOMEIPSDEntryType.OfferService:
-                asyncio.get_event_loop().call_soon(
-                    self.discovery.handle_offer, entry, addr
-                )
+                # handled in arrival order, like all other entries and like reboot detection:
+                # a deferred offer could be overtaken by the reboot evidence of the next datagram
+                self.discovery.handle_offer(entry, addr)
                 continue
 
             if entry.sd_type == someip.header.SOMEIPSDEntryType.SubscribeAck:
